@@ -1117,7 +1117,7 @@ func (m *Manager) KillTasks(taskIds []string) (killed Tasks, running Tasks, err 
 			Debugf("some tasks cannot be physically killed (already dead or being killed in another goroutine?), will instead only be removed from roster")
 	}
 
-	for _, id := range toKill.GetTaskIds() {
+	for _, id := range toKill.Filtered(func(t *Task) bool { return t.status == ACTIVE }).GetTaskIds() {
 		err := m.ackKilledTasks.RegisterAck(id)
 		if err != nil {
 			log.WithField("level", infologger.IL_Devel).Warnf("failed to register ack for task '%s': %s", id, err)
@@ -1175,6 +1175,11 @@ func (m *Manager) doKillTasks(tasks Tasks) (killed Tasks, running Tasks, err err
 		} else {
 			killed = append(killed, task)
 		}
+	}
+
+	// a task that is not ACTIVE may still be staging: ask Mesos to kill it too (best effort, no acknowledgement awaited)
+	for _, task := range inactiveTasks {
+		_ = m.doKillTask(task)
 	}
 
 	running = m.roster.getTasks()
